@@ -126,6 +126,17 @@ def handle : List String → String
         s!"n={xs.length} {",".intercalate strs}"
       | none => "bad-op"
     | none => "bad-op"
+  | ["projf", cells, hex] =>
+    match parseIntList cells, parseHex hex with
+    | some ms, some bs =>
+      match bytesToBits bs with
+      | some xs =>
+        if ms.length = xs.length ∧ ms.all (fun m => decide (-32768 ≤ m ∧ m ≤ 32767)) then
+          let o := projOutF ms xs
+          s!"{if o % 2147483648 = 0 then "zero" else if (mag o).isNone then "nonfinite" else "finite"} f={o}"
+        else "bad-op"
+      | none => "bad-op"
+    | _, _ => "bad-op"
   | ["proj", cells, hex] =>
     match parseIntList cells, parseHex hex with
     | some ms, some bs =>
